@@ -136,7 +136,7 @@ var scenarios = []scen{
 	{"reconnect-in-progress", 40, func(x *exec) {
 		// heartbeats die, the reconnect is answered late or never
 		x.gw.HeartbeatStatus = func(epoch, k int) (uint8, bool) { return 0, false }
-		k := x.rng.Intn(3)
+		k := x.rng.Intn(4)
 		x.gw.ConnStatus = func(n int) uint8 {
 			if n == 1 {
 				return 0
@@ -146,6 +146,12 @@ var scenarios = []scen{
 				return 0xff // silent
 			case 1:
 				return 0x24 // busy
+			case 2:
+				// accepted late: the first requests of each reconnect are lost, so that
+				// Close falls into a reconnect that then succeeds
+				if n%4 != 1 {
+					return 0xff
+				}
 			}
 			return 0
 		}
@@ -499,6 +505,9 @@ func run(rr *mon.Run) {
 					v.kill = 0
 				case 7:
 					v.kill = 2 + n%9
+				}
+				if r.Enough() {
+					continue
 				}
 				one(v)
 				if k == -1 {
